@@ -533,8 +533,35 @@ def _visited_guard(ctx, fn, call):
                             fresh = value if n['method'] == 'insert' else (not value)
                             if not fresh:
                                 return 'inverted', 'the call runs only when %s.%s() reported the node as ALREADY visited' % (rt.split('<')[0].split('::')[-1], n['method'])
+                        if n['method'] != 'insert' and call.get('k') in ('call', 'mcall'):
+                            # a pure membership test marks nothing: the node has to be recorded BEFORE the descent (in this function:
+                            # when the function records into that set at all, some recording must come earlier than the call)
+                            root = _root_hid(n['recv'])
+                            marks = [x_ for x_ in walk(fn.body) if x_['k'] == 'mcall' and x_['method'] in ('insert', 'push', 'extend') and _root_hid(x_['recv']) == root and root is not None]
+                            if marks and not any(_earlier(fn, x_, call) for x_ in marks):
+                                return 'late', 'the node is recorded in the %s only after the descent returns' % rt.split('<')[0].split('::')[-1]
                         return True, 'guarded by %s.%s()' % (rt.split('<')[0].split('::')[-1], n['method'])
     return False, ''
+
+
+def _root_hid(e):
+    while isinstance(e, dict):
+        if e.get('k') == 'path':
+            return (e.get('res') or {}).get('hid') if (e.get('res') or {}).get('r') == 'local' else None
+        if e.get('k') == 'mcall':
+            e = e.get('recv')
+        elif 'e' in e:
+            e = e['e']
+        elif e.get('k') == 'field':
+            e = e.get('base') or e.get('e')
+        else:
+            return None
+    return None
+
+
+def _earlier(fn, a, b):
+    okp, why = H.precedes(fn, a, b)
+    return okp or why.startswith('earlier but conditional')
 
 
 def _structural_arg(ctx, fn, call):
@@ -656,6 +683,10 @@ def rule_rec_guard(ctx):
                                        'possibly unbounded recursion'))
                         continue
                     vg, vwhy = _visited_guard(ctx, fn, call)
+                    if vg == 'late':
+                        obs.append(bad('REC-GUARD', inst, 'recursion %s: %s' % (kind, vwhy), loc,
+                                       'a reference cycle that does not pass through the entry node is followed without bound: stack overflow aborts the compiler process'))
+                        continue
                     if vg == 'inverted':
                         obs.append(bad('REC-GUARD', inst, 'recursion %s sits on the wrong side of its visited-set test: %s' % (kind, vwhy), loc,
                                        'fresh nodes are skipped and visited ones are followed again: a reference cycle recurses without bound'))
